@@ -16,6 +16,9 @@
 (*          a definition is a function field name |-> declared type;       *)
 (*   inst : sequence of instance slots [live, type, ver, f]; f maps keys   *)
 (*          to abstract values (only the TYPE of a value matters here).    *)
+(* Operations: declare / redeclare, construct, decode (JSON / msgpack),    *)
+(* write a field (through any route), assign one element of the slice a    *)
+(* field holds, assign a whole instance through a pointer.                 *)
 (* Every operation is a pure operator Outcomes(st, op): the set of         *)
 (* [s |-> next state, r |-> "ok"|"err"|"panic", d |-> deviation id or ""]  *)
 (* the property allows.  The model checker (Next) and the trace validator  *)
